@@ -30,6 +30,8 @@ import Pandora.Proofs.C02Huge
 import Pandora.Proofs.C02LeafPar
 import Pandora.Proofs.C02Width
 import Pandora.Bridge.C02Leaf
+import Pandora.Proofs.C02Big
+import Pandora.Bridge.C02Const
 
 set_option linter.unusedVariables false
 
@@ -851,7 +853,72 @@ theorem C02_leaf_accesses_are_source :
   ⟨Pandora.Bridge.C02Leaf.accesses_eq, Pandora.Bridge.C02Leaf.index_is_fetch_and_increment,
    Pandora.Bridge.C02Leaf.plain_writes_in_once⟩
 
+/-! ## round 4: parts of realistic size that are described instead of written out; schedule factories -/
+
+/-- **Trees whose parts are DESCRIBED** (`Model/C02Big.lean`: a finite part is a token count `n` and a function `off`
+from the token index to its offset — for a const part `constCount` / `constOff`, the float64 operations of `NewConst` /
+`constDoAt` carried out exactly; the composite is the same generic `NewComposite` / `Next` / `Left`): built without
+panic, and for every sequence of Start/Next/Left calls with a non-decreasing clock they return exactly what the flat
+spec returns for the EXPANDED tree (offsets `off 0, …, off (n-1)` written out), the tree `C02_tree_refines`,
+`C02_seq_refines` and all contract theorems talk about.  The driver drains const parts of 10^4 … 3·10^5 tokens of the
+real code against this model (`mode=seq big=1`). -/
+theorem C02_big_refines (now0 : Int) (t : BTree) (d : Nat) (hd : t.depth ≤ d) :
+    ∃ s, bbuild now0 d t = .ok s ∧ ∀ (calls : List (SOp × Int)) (clk0 : Int), ClockSeq clk0 calls →
+      seqRun (blvlOps d) s calls = absRun (.unstarted (flat t.expand)) calls := by
+  obtain ⟨s, hs, hU⟩ := Pandora.Proofs.C02Big.bbuild_ok now0 d t hd
+  exact ⟨s, hs, fun calls clk0 hclk => seq_refines (Pandora.Proofs.C02Big.blvlSem d) calls s _ clk0 hU hclk⟩
+
+/-- **The schedules a factory produces are schedules of their own** (any objects, any number of them): in a run of
+calls `(j, op, clock)` spread in any order over the produced objects `ss` (no panic, i.e. no double `Start`), what
+object `j` answered is what it answers to its own calls when it is used alone. -/
+theorem C02_factory_objects {σ : Type} (ops : Ops σ) (ss : List σ) (calls : List (Nat × SOp × Int)) (j : Nat) (s : σ)
+    (hs : ss[j]? = some s) (hne : noErr (facRun ops ss calls) = true) :
+    projObs j (facRun ops ss calls) = seqRun ops s (projCalls j calls) :=
+  Pandora.Proofs.C02Big.facRun_proj ops calls ss j s hs hne
+
+/-- **A schedule factory** (`rps` of an instance pool is a `func() (core.Schedule, error)`; with `rps-per-instance`
+every instance calls it): the factory builds the configured tree anew at every call, so k calls give k independent
+objects (`List.replicate k s` — states are values, nothing is shared), and EACH of them, whatever is done with the
+others in between and in whatever order, returns exactly what the flat spec of the configured tree returns for the
+calls made to it: all its tokens, its own `Left`, its own part start times. -/
+theorem C02_factory_independent (now0 : Int) (t : Tree) (d : Nat) (hd : t.depth ≤ d) (k : Nat)
+    (calls : List (Nat × SOp × Int)) :
+    ∃ s, build now0 d t = .ok s ∧
+      (noErr (facRun (lvlOps d) (List.replicate k s) calls) = true → ∀ j, j < k → ∀ clk0,
+        ClockSeq clk0 (projCalls j calls) →
+        projObs j (facRun (lvlOps d) (List.replicate k s) calls) = absRun (.unstarted (flat t)) (projCalls j calls)) := by
+  obtain ⟨s, hs, hU⟩ := build_ok now0 d t hd
+  refine ⟨s, hs, fun hne j hj clk0 hclk => ?_⟩
+  rw [Pandora.Proofs.C02Big.facRun_proj (lvlOps d) calls (List.replicate k s) j s (by simp [hj]) hne]
+  exact seq_refines (lvlSem d) _ s (.unstarted (flat t)) clk0 (build_U now0 d t s hd hs) hclk
+
+/-- **The arithmetic of a const part is the source's** (`Gen/Schedule.lean` re-translates const.go on every check, in
+the float64 reading: the result of every float operation goes through a rounding function `fl`).  For any `fl` that
+rounds the way `Model/C02Big.lean` computes (`FlIs`: integer → float64, product, quotient), `NewConst` of the source is
+the doAt leaf with `constCount ops duration` tokens and `constDoAt(ops)(i)` of the source is `constOff ops i`: the
+period `1e9 / ops` rounded once as a float64, multiplied by `float64(i)`, rounded, truncated once.  (That `FlIs`
+describes the hardware is measured, not proved: the driver compares every token of every drained const part.) -/
+theorem C02_const_is_source (fl : ℝ → ℝ) (h : Pandora.Bridge.C02Const.FlIs fl) (ops : F64) (hops : ops.m ≠ 0) (dur : Nat) :
+    Pandora.Gen.Schedule.NewConst_fl fl (Pandora.Bridge.C02Const.val ops) (dur : ℤ) =
+      Pandora.Sched.doAt (dur : ℤ) (constCount ops (dur : ℤ))
+        (Pandora.Gen.Schedule.constDoAt_fl fl (Pandora.Bridge.C02Const.val ops)) ∧
+    ∀ i : Nat, Pandora.Gen.Schedule.constDoAt_fl fl (Pandora.Bridge.C02Const.val ops) (i : ℤ) = constOff ops (i : ℤ) :=
+  ⟨Pandora.Bridge.C02Const.constCount_is_source fl h ops dur,
+   fun i => Pandora.Bridge.C02Const.constOff_is_source fl h ops hops i⟩
+
 /-! ## non-vacuity -/
+
+-- two schedules from one factory for [once(1), once(1)], used alternately: each hands out both of its tokens
+example : (match newComposite leafOps 0 [Leaf.fin [0] 0 0 none, Leaf.fin [0] 0 0 none] with
+    | .ok (.inr c) => facRun (compOps leafOps) [c, c]
+        [(0, .next, 5), (1, .next, 6), (1, .left, 6), (0, .next, 7), (1, .next, 8), (0, .next, 9), (0, .left, 9)]
+    | _ => []) =
+    [(0, .tok 5 true), (1, .tok 6 true), (1, .cnt 1), (0, .tok 5 true), (1, .tok 6 true), (0, .tok 5 false), (0, .cnt 0)] := by
+  decide
+
+-- a described const part: 70000 ops/s for 1 s has 70000 tokens, the last one at 999985714 ns (< 10^9)
+example : constCount (F64.ofNat 70000) 1000000000 = 70000 ∧ constOff (F64.ofNat 70000) 69999 = 999985714 ∧
+    constOff (F64.ofNat 70000) 7 = 100000 := by decide
 
 -- a run tree with 2 + 2^32 tokens: composite(once(2), const(0, 1 s), once(1<<32)); Left is exact all the way
 example : (match newComposite hleafOps 0 [HLeaf.fin [⟨0, 0, 2⟩] 0 0 none, HLeaf.fin [] 1000000000 0 none,
